@@ -52,6 +52,12 @@ def faults_for(spec):
             out.append(("constant_false", pos))         # false constraints built from horizon symbols only
     if [v for v in spec["variables"] if v.get("role") != "horizon"]:
         out.append(("set_value_variable", 0))
+    # set_value on every other kind of non-parameter: control, bspline variable, quadrature state, algebraic
+    out += [("set_value_nonparam", 0), ("set_value_nonparam", 1)]
+    if spec.get("dyn") == "ode":
+        out.append(("set_value_nonparam", 2))
+    if spec["algebraics"]:
+        out.append(("set_value_nonparam", 3))
     if spec.get("dyn") == "ode":
         out += [("DT_in_ode", 0), ("DTc_in_ode", 0), ("T_in_ode", 0), ("t0_in_ode", 0)]
         if spec["method"]["cls"] in ("MS", "SS") and not spec["algebraics"]:
@@ -72,9 +78,11 @@ def gen_cases(rng, tier):
             # the same faults inside a sub-stage of a multi-stage OCP
             for (f, pos) in faults_for(spec):
                 if f in ("missing_der", "missing_value", "no_method", "signal_objective", "bad_grid_subject_to",
-                         "foreign_rhs", "foreign_constraint", "set_value_state", "set_initial_param", "DT_in_ode",
+                         "foreign_rhs", "foreign_constraint", "set_value_state", "set_value_nonparam", "set_initial_param", "DT_in_ode",
                          "T_in_ode", "alg_explicit"):
                     cases.append({"kind": "substage", "spec": spec, "fault": f, "pos": pos, "base": b})
+            if [p_ for p_ in spec["params"] if p_.get("role") != "horizon"]:
+                cases.append({"kind": "substage", "spec": spec, "fault": "clone_missing_value", "pos": 0, "base": b})
     nsp = 3 if tier == "quick" else 40
     for b in range(nsp):
         base = spline_base(rng)
@@ -114,7 +122,11 @@ def build_faulty(spec, fault, pos, substage=False):
         a = build.horizon_arg(spec[key])
         if a is not None:
             kw[key] = a
-    if substage:
+    if substage and fault == "clone_missing_value":
+        # the content goes into a template; two clones, only the first one receives its parameter values
+        ocp = rockit.Ocp()
+        st = rockit.Stage(**kw)
+    elif substage:
         ocp = rockit.Ocp()
         st = ocp.stage(**kw)
     else:
@@ -178,7 +190,7 @@ def build_faulty(spec, fault, pos, substage=False):
     if fault == "foreign_objective":
         st.add_objective(st.at_tf(x0el) * foreign)
     for j, p in enumerate(spec["params"]):
-        if fault == "missing_value" and j == pos:
+        if (fault == "missing_value" and j == pos) or fault == "clone_missing_value":
             continue
         st.set_value(b.syms[p["name"]], build.param_value(p))
     if fault == "set_value_state":
@@ -186,6 +198,19 @@ def build_faulty(spec, fault, pos, substage=False):
     if fault == "set_value_variable":
         v = [v for v in spec["variables"] if v.get("role") != "horizon"][0]
         st.set_value(b.syms[v["name"]], 1)
+    if fault == "set_value_nonparam":
+        if pos == 0:
+            tgt = b.syms[spec["controls"][0]["name"]]
+        elif pos == 1:
+            tgt = st.variable(grid="bspline", order=2)
+            st.add_objective(st.sum(ca.sumsqr(tgt)))
+        elif pos == 2:
+            tgt = st.state(quad=True)
+            st.set_der(tgt, x0el ** 2)
+            st.add_objective(st.at_tf(tgt))
+        else:
+            tgt = b.syms[spec["algebraics"][0]["name"]]
+        st.set_value(tgt, 0.25)
     if fault == "set_initial_param":
         st.set_initial(b.syms[spec["params"][0]["name"]], 1)
     if fault == "set_initial_foreign":
@@ -194,6 +219,12 @@ def build_faulty(spec, fault, pos, substage=False):
         st.method(build.make_method(spec["method"]))
     if fault != "no_solver":
         ocp.solver("ipopt", {"ipopt.print_level": 0, "print_time": False})
+    if fault == "clone_missing_value":
+        s1 = ocp.stage(st)
+        s2 = ocp.stage(st)
+        for p in spec["params"]:
+            s1.set_value(b.syms[p["name"]], build.param_value(p))
+        return ocp, (s2, x0sym)
     if substage:
         return ocp, (st, x0sym)
     return ocp, x0sym
